@@ -17,6 +17,8 @@
       tolerance test has no false positive (`…_partial`, with a witness of the excluded class).
 -/
 import GeoProofs.Lemmas.C07Kernels
+import GeoProofs.Lemmas.C07Dispatch
+import GeoProofs.Lemmas.C07Bbox
 
 namespace Geo.Proofs.C07
 open Geo Geo.Proofs.Kernel
@@ -250,16 +252,32 @@ theorem baseD_symm_pt_ln :
     (∀ a b c d, baseD (.ln a b) (.ln c d) = baseD (.ln c d) (.ln a b)) :=
   ⟨fun p q => ptPt2_symm p q, fun a b c d => lineLine2_symm a b c d⟩
 
-/- **dist2_symm**, `LineString × LineString` and the areal pairs: `nearest_neighbour_distance` is
-symmetric (`nn_symm`); the `intersects` short-circuits and the two containment branches of
-`Polygon × Polygon` are not written symmetrically — their agreement for exchanged operands is what
-the correspondence checks bit for bit on every case (`FAIL:asymmetric`).
-   theorem baseD_symm (x y) : baseD x y = baseD y x       -- full statement, not proved -/
-theorem lsLs_symm_partial (as bs : List Pt) (h : lsLsIntersects as bs = lsLsIntersects bs as) :
-    lsLs2 as bs = lsLs2 bs as := by
-  unfold lsLs2; rw [h, nnDist2_symm]
+/-- `LineString: Intersects<LineString>` (with its two nested bounding-box rejections) holds exactly
+when a segment of one intersects a segment of the other -/
+theorem lsLs_intersects_iff (as bs : List Pt) :
+    lsLsIntersects as bs = true ↔ ∃ s ∈ segs as, ∃ t ∈ segs bs, lineLine t.1 t.2 s.1 s.2 = true :=
+  lsLsIntersects_iff as bs
 
-example : lsLsIntersects [⟨0, 0⟩, ⟨2, 2⟩] [⟨0, 2⟩, ⟨2, 0⟩] = lsLsIntersects [⟨0, 2⟩, ⟨2, 0⟩] [⟨0, 0⟩, ⟨2, 2⟩] := by
+/-- **dist2_symm**, `LineString × LineString` -/
+theorem lsLs_dist_symm (as bs : List Pt) : lsLs2 as bs = lsLs2 bs as := by
+  unfold lsLs2; rw [lsLsIntersects_symm, nnDist2_symm]
+
+/- **dist2_symm**, areal pairs: `nearest_neighbour_distance` is symmetric (`nn_symm`); the
+`Polygon: Intersects<Polygon>` short-circuit and the two containment branches of `Polygon × Polygon`
+are not written symmetrically — their agreement for exchanged operands rests on validity (S2) and is
+what the correspondence checks bit for bit on every case (`FAIL:asymmetric`).
+   theorem polyPoly_symm (a b) : polyPoly2 a b = polyPoly2 b a       -- full statement, not proved -/
+theorem polyPoly_symm_partial (a b : Poly) (hI : polyPolyIntersects a b = polyPolyIntersects b a)
+    (hA : (!a.ints.isEmpty && ringContainsCoord a.ext (b.ext.headD ⟨0, 0⟩)) = false)
+    (hB : (!b.ints.isEmpty && ringContainsCoord b.ext (a.ext.headD ⟨0, 0⟩)) = false)
+    (ha : a.ext.isEmpty = false) (hb : b.ext.isEmpty = false) :
+    polyPoly2 a b = polyPoly2 b a := by
+  unfold polyPoly2
+  rw [hI, hA, hB, ha, hb, nnDist2_symm]
+  simp
+
+example : polyPolyIntersects ⟨[⟨0, 0⟩, ⟨1, 0⟩, ⟨0, 1⟩, ⟨0, 0⟩], []⟩ ⟨[⟨3, 3⟩, ⟨4, 3⟩, ⟨3, 4⟩, ⟨3, 3⟩], []⟩ =
+    polyPolyIntersects ⟨[⟨3, 3⟩, ⟨4, 3⟩, ⟨3, 4⟩, ⟨3, 3⟩], []⟩ ⟨[⟨0, 0⟩, ⟨1, 0⟩, ⟨0, 1⟩, ⟨0, 0⟩], []⟩ := by
   decide +kernel
 
 /-- **wrapper invariance**: a Rect / Triangle behaves as its `to_polygon()`; against another areal
@@ -280,36 +298,95 @@ theorem rect_triangle_as_polygon (mn mx a b c : Pt) :
   refine ⟨fun y hy => ?_, fun h => ⟨rfl, rfl, rfl, rfl⟩, fun _ _ => rfl, fun _ _ _ => rfl, rfl, rfl⟩
   cases y <;> simp [baseRank] at hy <;> exact ⟨rfl, rfl, rfl, rfl⟩
 
-/-- **wrapper invariance**: a Multi* of one member makes exactly the calls of the member (one
-dispatch step later), whatever the other operand — stated for the other operand not of the same
-Multi* kind; for equal kinds the member pair is exchanged (`multi_same_kind_singleton`) -/
-theorem multi_singleton (n : Nat) (b : Geom) (p : Pt) (cs : List Pt) (g : Poly) :
-    (kindOf b ≠ .mpt → callsF (n + 1) (.multiPoint [p]) b = callsF n (.point p) b) ∧
-    (kindOf b ≠ .mpt → kindOf b ≠ .mls → callsF (n + 1) (.multiLineString [cs]) b = callsF n (.lineString cs) b) ∧
-    (kindOf b ≠ .mpt → kindOf b ≠ .mls → kindOf b ≠ .mpg →
-      callsF (n + 1) (.multiPolygon [g]) b = callsF n (.polygon g) b) := by
-  refine ⟨fun h => ?_, fun h1 h2 => ?_, fun h1 h2 h3 => ?_⟩
-  · cases hb : kindOf b <;> simp_all [callsF, kindOf, multiMembers]
-  · cases hb : kindOf b <;> simp_all [callsF, kindOf, multiMembers]
-  · cases hb : kindOf b <;> simp_all [callsF, kindOf, multiMembers]
+/-- **dispatch = the folds of the macros**: when a dispatch step of `distance(a, b)` delegates to
+the operand pairs `subs`, the list of single-part calls is the concatenation of theirs (fuel
+independence, `callsF_fuel`), and the distance is the `min` fold of the delegated distances -/
+theorem distG_step {a b : Geom} {subs : List (Geom × Geom)} (h : expand a b = .inr subs) :
+    calls a b = subs.flatMap (fun xy => calls xy.1 xy.2) ∧
+    distG a b = foldMin (fun xy => distG xy.1 xy.2) subs := by
+  have hc : calls a b = subs.flatMap (fun xy => calls xy.1 xy.2) := by
+    have hd := expand_decreases h
+    unfold calls callsFuel
+    have pa := geomW_pos a; have pb := geomW_pos b
+    obtain ⟨k, hk⟩ : ∃ k, geomW a + geomW b = k + 1 := ⟨geomW a + geomW b - 1, by omega⟩
+    rw [hk, callsF, h]
+    simp only
+    apply flatMap_congr'
+    intro xy hxy
+    exact callsF_fuel k xy.1 xy.2 (by have := hd xy hxy; omega)
+  refine ⟨hc, ?_⟩
+  unfold distG
+  rw [hc, foldMin_flatMap]
 
-theorem multi_same_kind_singleton (n : Nat) (p q : Pt) :
-    callsF (n + 2) (.multiPoint [p]) (.multiPoint [q]) = [(.pt q, .pt p)] := by
-  simp [callsF, kindOf, multiMembers, Base.ofGeom?]
+/-- a single-part pair is one call (the `Geometry` enum impls only `match` and delegate: in the
+model an operand *is* its enum value) -/
+theorem distG_base {a b : Geom} {x y : Base} (ha : Base.ofGeom? a = some x) (hb : Base.ofGeom? b = some y) :
+    calls a b = [(x, y)] ∧ distG a b = baseD x y := by
+  have hc : calls a b = [(x, y)] := by
+    unfold calls callsFuel
+    cases a <;> simp [Base.ofGeom?] at ha <;> cases b <;> simp [Base.ofGeom?] at hb <;>
+      subst ha <;> subst hb <;> simp [callsF, expand, kindOf, Base.ofGeom?, geomW]
+  refine ⟨hc, ?_⟩
+  unfold distG
+  rw [hc, foldMin_singleton]
+
+/-- **wrapper invariance**: a Multi* of one member is its member, whatever the other operand (of a
+different Multi* kind or not a Multi*; for two Multi* of the same kind the member pair is exchanged,
+`multi_same_kind_singleton`) -/
+theorem multi_singleton (b : Geom) (p : Pt) (cs : List Pt) (g : Poly) :
+    (kindOf b ≠ .mpt → distG (.multiPoint [p]) b = distG (.point p) b) ∧
+    (kindOf b ≠ .mpt → kindOf b ≠ .mls → distG (.multiLineString [cs]) b = distG (.lineString cs) b) ∧
+    (kindOf b ≠ .mpt → kindOf b ≠ .mls → kindOf b ≠ .mpg →
+      distG (.multiPolygon [g]) b = distG (.polygon g) b) := by
+  refine ⟨fun h => ?_, fun h1 h2 => ?_, fun h1 h2 h3 => ?_⟩
+  · have he : expand (.multiPoint [p]) b = .inr [(.point p, b)] := by
+      cases hb : kindOf b <;> simp_all [expand, kindOf, multiMembers]
+    rw [(distG_step he).2, foldMin_singleton]
+  · have he : expand (.multiLineString [cs]) b = .inr [(.lineString cs, b)] := by
+      cases hb : kindOf b <;> simp_all [expand, kindOf, multiMembers]
+    rw [(distG_step he).2, foldMin_singleton]
+  · have he : expand (.multiPolygon [g]) b = .inr [(.polygon g, b)] := by
+      cases hb : kindOf b <;> simp_all [expand, kindOf, multiMembers]
+    rw [(distG_step he).2, foldMin_singleton]
+
+theorem multi_same_kind_singleton (p q : Pt) (g h : Poly) :
+    distG (.multiPoint [p]) (.multiPoint [q]) = distG (.point q) (.point p) ∧
+    distG (.multiPolygon [g]) (.multiPolygon [h]) = distG (.polygon h) (.polygon g) := by
+  constructor
+  · have he : expand (.multiPoint [p]) (.multiPoint [q]) = .inr [(.point q, .point p)] := by
+      simp [expand, kindOf, multiMembers]
+    rw [(distG_step he).2, foldMin_singleton]
+  · have he : expand (.multiPolygon [g]) (.multiPolygon [h]) = .inr [(.polygon h, .polygon g)] := by
+      simp [expand, kindOf, multiMembers]
+    rw [(distG_step he).2, foldMin_singleton]
 
 /-- **wrapper invariance**: a collection of one member against a single-part operand or another
-collection makes the calls of `distance(b, member)` (the `Geometry` impls exchange the operands;
-by `baseD_symm_mixed` / `baseD_symm_pt_ln` that is immaterial except between two areal operands) -/
-theorem collection_singleton (n : Nat) (g b : Geom) (h : kindOf b = .base ∨ kindOf b = .gc) :
-    callsF (n + 1) (.collection [g]) b = callsF n b g := by
-  cases b <;> simp [kindOf] at h <;> simp [callsF, kindOf]
+collection is `distance(b, member)` (the `Geometry` impls exchange the operands; by
+`baseD_symm_mixed` / `baseD_symm_pt_ln` that is immaterial except between two areal operands), and
+a single-part operand against a collection of one member is `distance(a, member)` -/
+theorem collection_singleton (g b : Geom) :
+    ((kindOf b = .base ∨ kindOf b = .gc) → distG (.collection [g]) b = distG b g) ∧
+    (kindOf b = .base → distG b (.collection [g]) = distG b g) := by
+  constructor
+  · intro h
+    have he : expand (.collection [g]) b = .inr [(b, g)] := by
+      rcases h with h | h <;> cases b <;> simp [kindOf] at h <;> simp [expand, kindOf, collMembers]
+    rw [(distG_step he).2, foldMin_singleton]
+  · intro h
+    have he : expand b (.collection [g]) = .inr [(b, g)] := by
+      cases b <;> simp [kindOf] at h <;> simp [expand, kindOf, collMembers]
+    rw [(distG_step he).2, foldMin_singleton]
 
-/-- the `Geometry` enum impls only `match` and delegate: in the model an operand *is* its enum
-value, and a single-part pair makes exactly one call -/
-theorem enum_dispatch (n : Nat) (a b : Geom) (x y : Base) (ha : Base.ofGeom? a = some x)
-    (hb : Base.ofGeom? b = some y) : callsF (n + 1) a b = [(x, y)] := by
-  cases a <;> simp [Base.ofGeom?] at ha <;> cases b <;> simp [Base.ofGeom?] at hb <;>
-    subst ha <;> subst hb <;> simp [callsF, kindOf, Base.ofGeom?]
+/-- an empty Multi* / collection yields `max_value` (the fold start value) -/
+theorem empty_multi (b : Geom) (h : kindOf b = .base) :
+    distG (.multiPoint []) b = .inf ∧ distG (.collection []) b = .inf := by
+  constructor
+  · have he : expand (.multiPoint []) b = .inr [] := by
+      cases b <;> simp [kindOf] at h <;> simp [expand, kindOf, multiMembers]
+    rw [(distG_step he).2]; rfl
+  · have he : expand (.collection []) b = .inr [] := by
+      cases b <;> simp [kindOf] at h <;> simp [expand, kindOf, collMembers]
+    rw [(distG_step he).2]; rfl
 
 /-! ### 7. Point × LineString and finding K4 -/
 
@@ -339,6 +416,19 @@ theorem tolerance_false_positive_witness :
   simp [segs] at hse
   subst hse
   revert h
+  decide +kernel
+
+/-! ### findings K14a / K14b: empty members -/
+
+/-- K14a: an empty polygon member makes the distance of a far away collection zero (the early
+return `polygon.exterior().0.is_empty() ⇒ 0` inside the `min` fold) -/
+theorem empty_member_zero_witness :
+    distG (.collection [.polygon ⟨[], []⟩, .polygon ⟨[⟨5, 5⟩, ⟨6, 5⟩, ⟨6, 6⟩, ⟨5, 6⟩, ⟨5, 5⟩], []⟩]) (.point ⟨0, 0⟩)
+      = .fin 0 := by
+  decide +kernel
+
+/-- K14b: `nearest_neighbour_distance` panics on an empty line string against a non-empty one -/
+theorem empty_linestring_panic_witness : lsLs2 [] [⟨0, 0⟩, ⟨1, 0⟩] = .panic := by
   decide +kernel
 
 end Geo.Proofs.C07
